@@ -4,6 +4,7 @@
 From Coq Require Import ZArith List Bool Arith Lia.
 Import ListNotations.
 From V Require Import Base Graph Perm Matrix RefBfs RefBfsProofs.
+Local Open Scope nat_scope.   (* Matrix.v opens Z_scope for its importers *)
 
 (* how a dataset key denotes generators: one-line permutations (library convention
    apply p x = [x[p[i]]]) or n*n matrices acting on flat row-major n*m states, optional modulus *)
